@@ -65,9 +65,26 @@ class RecNullObs(RecObs, NullProgressObserver):
         RecObs.__init__(self)
 
 
+class _One(Progress):
+    def __init__(self, obs):
+        self.obs1 = obs
+
+    def observer(self):
+        return self.obs1
+
+
 class RecProgress(Progress):
     def __init__(self, n):
         self.obs = [(RecNullObs if k % 2 == 1 else RecObs)() for k in range(n)]
+
+    def as_argument(self, public):
+        """what is handed to `uberjob.run(progress=...)`: this object (which builds the composite observer itself), or - the way
+        users do it - a LIST of Progress objects / `composite_progress(...)`, composed by the library"""
+        if not public or len(self.obs) < 2:
+            return self
+        from uberjob.progress import composite_progress
+        members = [_One(o) for o in self.obs]
+        return members if public == 1 else composite_progress(*members)
 
     def observer(self):
         from uberjob.progress._composite_progress_observer import CompositeProgressObserver
@@ -156,7 +173,7 @@ def one_case(rng, ctx, with_registry, mode="prim", op_switch_p=0.05, join_shape=
         out = rng.sample(ids, min(len(ids), rng.choice([0, 1, 2])))
         plan, nodes, reg = b.plan, b.N, b.reg
         thunk = lambda: uberjob.run(plan, registry=reg, output=[nodes[i] for i in out], max_workers=workers, scheduler=sched,
-                                    max_errors=me, progress=prog, transform_physical=tp)
+                                    max_errors=me, progress=prog.as_argument(seed % 3), transform_physical=tp)
         info["spec"] = spec
         info["output"] = out
         info["failing"] = sorted(b.failing)
@@ -178,7 +195,7 @@ def one_case(rng, ctx, with_registry, mode="prim", op_switch_p=0.05, join_shape=
         out = rng.sample(ids, min(len(ids), rng.choice([1, 2, 3])))
         reg = None
         thunk = lambda: uberjob.run(plan, output=[nodes[i] for i in out], max_workers=workers, scheduler=sched, max_errors=me,
-                                    progress=prog, transform_physical=tp)
+                                    progress=prog.as_argument(seed % 3), transform_physical=tp)
         info["spec"] = spec
         info["output"] = out
         info["failing"] = {str(k): v for k, v in failing.items()}
@@ -504,7 +521,8 @@ def replay(ctx, payload):
         rec = plans.Rec()
         plan, nodes, _ = plans.build(info["spec"], rec, failing)
         thunk = lambda: uberjob.run(plan, output=[nodes[i] for i in info["output"]], max_workers=info["workers"],
-                                    scheduler=info["scheduler"], max_errors=info["max_errors"], progress=prog)
+                                    scheduler=info["scheduler"], max_errors=info["max_errors"],
+                                    progress=prog.as_argument(info["seed"] % 3))
         r = coop.run_controlled(thunk, info["seed"] + j, mode=info.get("mode", "prim"), op_switch_p=info.get("op_switch_p", 0.05),
                                 interrupt_at=info.get("interrupt_at"))
         v = check_case(ctx, r, prog, plan, None, info, [], [])
